@@ -38,6 +38,13 @@ var AliasOps = []struct{ ID, Text string }{
 	{"methodValue", "f$i := (&H2{P: $u}).Get\n$v := f$i()"},
 	{"methodExpr", "f$i := (*H2).Get\n$v := f$i(&H2{P: $u})"},
 	{"deferSet", "var $v *T\nfunc() {\n\tdefer setT(&$v, $u)\n}()"},
+	// builtins over aggregate element types that CONTAIN pointers
+	{"copyStructSlice", "src$i := []H2{{P: $u}}\ndst$i := make([]H2, 1)\ncopy(dst$i, src$i)\n$v := dst$i[0].P"},
+	{"copyPtrSlice", "src$i := []*T{$u}\ndst$i := make([]*T, 1)\ncopy(dst$i, src$i)\nrt.Probe($k, dst$i)\n$v := dst$i[0]"},
+	{"copyArrSlice", "src$i := [][2]*T{{$u, $w}}\ndst$i := make([][2]*T, 1)\ncopy(dst$i, src$i)\n$v := dst$i[0][0]"},
+	{"copyNestedSlice", "src$i := []H4{{In: H2{P: $u}}}\ndst$i := make([]H4, 1)\ncopy(dst$i, src$i)\n$v := dst$i[0].In.P"},
+	{"appendStructSlice", "dst$i := append([]H2(nil), []H2{{P: $u}}...)\n$v := dst$i[0].P"},
+	{"arrayValueCopy", "arr$i := [1]H2{{P: $u}}\nbrr$i := arr$i\n$v := brr$i[0].P"},
 	{"goChan", "c$i := make(chan *T)\ngo func() { c$i <- $u }()\n$v := <-c$i"},
 }
 
@@ -47,6 +54,7 @@ const aliasDecls = `type T struct {
 }
 type H2 struct{ P *T }
 func (h *H2) Get() *T { return h.P }
+type H4 struct{ In H2 }
 type H3 struct{ P *T }
 func (h H3) GetV() *T { return h.P }
 type E3 struct{ H3 }
@@ -99,7 +107,7 @@ func (p *AliasProg) Atoms() []string {
 func (p *AliasProg) Body(prefix string) string {
 	var sb strings.Builder
 	sb.WriteString(strings.NewReplacer("T struct", prefix+"T struct", "*T", "*"+prefix+"T", "H2", prefix+"H2", "idT", prefix+"idT", "setT", prefix+"setT",
-		"GP", prefix+"GP", "H3", prefix+"H3", "E3", prefix+"E3", "GetterV", prefix+"GetterV", "GetterP", prefix+"GetterP").Replace(aliasDecls))
+		"GP", prefix+"GP", "H4", prefix+"H4", "H3", prefix+"H3", "E3", prefix+"E3", "GetterV", prefix+"GetterV", "GetterP", prefix+"GetterP").Replace(aliasDecls))
 	var body []string
 	body = append(body, "a0 := rt.Mark(1, &T{})", "a1 := rt.Mark(2, &T{})")
 	vars := []string{"a0", "a1"}
@@ -117,7 +125,7 @@ func (p *AliasProg) Body(prefix string) string {
 		body = append(body, fmt.Sprintf("rt.Probe(%d, %s)", 10+i, v))
 	}
 	text := strings.NewReplacer("&T{}", "&"+prefix+"T{}", "*T", "*"+prefix+"T", "H2", prefix+"H2", "idT(", prefix+"idT(", "setT(", prefix+"setT(",
-		"GP", prefix+"GP", "H3", prefix+"H3", "E3", prefix+"E3", "GetterV", prefix+"GetterV", "GetterP", prefix+"GetterP").Replace(strings.Join(body, "\n"))
+		"GP", prefix+"GP", "H4", prefix+"H4", "H3", prefix+"H3", "E3", prefix+"E3", "GetterV", prefix+"GetterV", "GetterP", prefix+"GetterP").Replace(strings.Join(body, "\n"))
 	sb.WriteString("func " + prefix + "main() {\n" + indent(text, 1) + "\n}\n")
 	sb.WriteString("func " + prefix + "reset() {\n\t" + prefix + "GP = nil\n}\n")
 	return sb.String()
